@@ -245,6 +245,13 @@ def writer(prog, rep):
     frees = [norm(c.arg(0)) for c in w.calls("free")]
     ok = wbinit is not None and sorted(map(str, frees)) == sorted(map(str, [wbinit, (".", ("*", wbinit), "buf")]))
     rep.check(ok, "F2-detach", "writbuf frees exactly the in-flight buffer", w.loc, "frees: %s" % [show(x) for x in frees], function="writbuf", construct="free-curr")
+    # ... on every path: once curr is cleared nothing else refers to the buffer, so a return that is reached without passing
+    # both frees leaks it (the failure path included)
+    if ok:
+        fr = list(w.calls("free"))
+        escaping = [c for c in fr if any(w.reach_avoiding(w.entry, r.block.id, c.block.id) and r.block.id != c.block.id for r in w.returns())]
+        rep.check(not escaping, "F2-detach", "writbuf frees the in-flight buffer on every path, the failure path included", w.loc,
+                  "a return is reachable without %s: the buffer detached from the queue is lost" % [c.text[:20] for c in escaping], function="writbuf", construct="free-curr-allpaths")
     # exactly one of: failure callback, poke -- both in return position
     pk = list(w.calls("poke"))
     inret = all(any(r.kids and r.kid(0) is not None and r.kid(0).strip() is c for r in w.returns()) for c in pk)
@@ -436,6 +443,37 @@ def reader_cancel(prog, rep, u, wt, ls):
               function=cn.name, construct="cancel-discards-progress")
 
 
+def f5_compaction(rep, u, wt):
+    """F5: moving the unconsumed bytes to the front of the buffer is the triple copy(datalen - bufpos bytes from
+    &buf[bufpos]); datalen -= bufpos; bufpos = 0 -- in that order (adjusting the cursors first makes the copy a no-op and
+    leaves stale bytes in place of the unconsumed ones)."""
+    R = ("*", ("v", "R"))
+    BUF, BUFLEN, BUFPOS, DATALEN = [(".", R, x) for x in ("buf", "buflen", "bufpos", "datalen")]
+    # F5 compaction triples
+    ntr = 0
+    for f in (wt, u.func("netbuf_read_resize_buffer")):
+        if f is None:
+            rep.defer_broken("F5: netbuf_read_resize_buffer missing")
+            continue
+        for c in f.calls(("memmove", "memcpy")):
+            src = strip_ids(norm(c.arg(1)))
+            if src != ("&", ("[]", BUF, BUFPOS)):
+                continue
+            ntr += 1
+            ln = strip_ids(norm(c.arg(2)))
+            dec = [e for e in f.all_elems() if e.is_assign and e.op == "-=" and strip_ids(norm(e.kid(0))) == DATALEN and strip_ids(norm(e.kid(1))) == BUFPOS and f.dominates(c, e)]
+            rst = [e for e in f.all_elems() if e.is_assign and e.op == "=" and strip_ids(norm(e.kid(0))) == BUFPOS and norm(e.kid(1)) == ("c", 0) and f.dominates(c, e)]
+            ok = ln == ("-", DATALEN, BUFPOS) and len(dec) == 1 and len(rst) == 1 and f.dominates(dec[0], rst[0])
+            # compaction inside one buffer moves overlapping bytes: it must be memmove
+            if strip_ids(norm(c.arg(0))) == BUF:
+                ok = ok and c.callee_real == "memmove"
+            rep.check(ok, "F5-compact", "compaction in %s" % f.name, c.where,
+                      "copy datalen - bufpos bytes from &buf[bufpos]; then datalen -= bufpos; then bufpos = 0 (in that order)",
+                      function=f.name, construct="compact")
+    if ntr < 2:
+        rep.defer_broken("F5: fewer than 2 compaction sites")
+
+
 def reader_window(prog, rep):
     """The relational window rules of netbuf_read.c alone (for the properties that are anchored in the reader too)."""
     u = prog.unit(RU)
@@ -447,6 +485,7 @@ def reader_window(prog, rep):
         rep.defer_broken("F4: expected two sibling transport launches in netbuf_read_wait")
         return
     reader_relational(prog, rep, u, wt, ls)
+    f5_compaction(rep, u, wt)
 
 
 def reader(prog, rep):
@@ -540,29 +579,7 @@ def reader(prog, rep):
         ok = ok and len(clr) == 1 and cn.always_passes(cc[0], clr[0])
         rep.check(ok, "SLOT", "wait_cancel: %s cancelled with %s under a slot test, then cleared" % (slot, canc), cn.loc, "",
                   function=cn.name, construct="cancel:" + slot)
-    # F5 compaction triples
-    ntr = 0
-    for f in (wt, u.func("netbuf_read_resize_buffer")):
-        if f is None:
-            rep.defer_broken("F5: netbuf_read_resize_buffer missing")
-            continue
-        for c in f.calls(("memmove", "memcpy")):
-            src = strip_ids(norm(c.arg(1)))
-            if src != ("&", ("[]", BUF, BUFPOS)):
-                continue
-            ntr += 1
-            ln = strip_ids(norm(c.arg(2)))
-            dec = [e for e in f.all_elems() if e.is_assign and e.op == "-=" and strip_ids(norm(e.kid(0))) == DATALEN and strip_ids(norm(e.kid(1))) == BUFPOS and f.dominates(c, e)]
-            rst = [e for e in f.all_elems() if e.is_assign and e.op == "=" and strip_ids(norm(e.kid(0))) == BUFPOS and norm(e.kid(1)) == ("c", 0) and f.dominates(c, e)]
-            ok = ln == ("-", DATALEN, BUFPOS) and len(dec) == 1 and len(rst) == 1 and f.dominates(dec[0], rst[0])
-            # compaction inside one buffer moves overlapping bytes: it must be memmove
-            if strip_ids(norm(c.arg(0))) == BUF:
-                ok = ok and c.callee_real == "memmove"
-            rep.check(ok, "F5-compact", "compaction in %s" % f.name, c.where,
-                      "copy datalen - bufpos bytes from &buf[bufpos]; then datalen -= bufpos; then bufpos = 0 (in that order)",
-                      function=f.name, construct="compact")
-    if ntr < 2:
-        rep.defer_broken("F5: fewer than 2 compaction sites")
+    f5_compaction(rep, u, wt)
     # resize allocates at least len and adopts the new buffer
     rz = u.func("netbuf_read_resize_buffer")
     if rz is not None:
